@@ -153,7 +153,7 @@ fn prop_info(property: &str) -> PropInfo {
         "C17" => PropInfo {
             level: "fault_enumeration",
             rule: "one case = one (KyTea file, scenario, fault point or schedule) read+convert attempt; per file every byte offset is enumerated as truncation point (slice / chunked BufRead / BufReader) and as hard-error point; read schedules are seeded. Non-trivial = a fault fired; distinct = counted once per distinct file (hash of its bytes): distinct_nontrivial = sum over distinct files of their faulted attempts",
-            real: vec!["KyteaModel::read", "TryFrom<KyteaModel> for Model", "Model::to_vec / read_slice", "Predictor on the converted model", "std::io::BufReader"],
+            real: vec!["KyteaModel::read", "TryFrom<KyteaModel> for Model", "Model::to_vec / read_slice", "Predictor on the converted model", "std::io::BufReader", "the real convert_kytea_model binary (every third file; complete file and three truncations, under the read/write interposer)"],
             stubs: vec!["FaultyReader / FaultyBufRead (simulated Read / BufRead endpoints)", "harness-side KyTea file writer (generator)"],
             assumptions: vec![
                 "K1 (conversion equals the generator's ground truth) is an input-quantified clause riding along as the workload's functional oracle; its coverage is that of the file generator",
